@@ -6,9 +6,50 @@ ALL = [f"C{i:02d}" for i in range(1, 21)]
 
 CHECKS = {
  "C01": dict(level="proof", design="6/C01",
-   text="Lean theorems (gs_no_blocking / feasibility, both orientations, every n, m, capacities) about an executable deferred-acceptance model; the model is tied to the Python code by differential runs (pair sets must be equal) and the direct blocking-pair oracle is evaluated on every implementation output.",
+   text="Lean theorems (C01_galeShapley: termination, feasibility, no blocking pair, both orientations, every n, m, capacities) about an executable deferred-acceptance model; the model is tied to the Python code by differential runs (pair sets must be equal) and the direct blocking-pair oracle is evaluated on every implementation output.",
    note="Trusted: Lean kernel + propext/Classical.choice/Quot.sound; the hand-written model (numpy argsort and heapq are modelled as sort-by-rank and remove-worst); adequacy of the model is checked by the correspondence run, which is differential testing.",
    technique="Lean 4 proof over an executable model + differential correspondence"),
+ "C02": dict(level="proof", design="6/C02",
+   text="Lean theorems: resident-optimality / -pessimality against an arbitrary stable matching, uniqueness, relabelling equivariance (C02_renumbering); correspondence = model pair set equality, brute-force enumeration of all stable matchings on small instances, relabelling metamorphic runs on the real code.",
+   note="Same trusted base as C01; brute force is the reference for 'all stable matchings' in the search for failing inputs.",
+   technique="Lean 4 proof (invariant 'no achievable partner rejects') + differential correspondence"),
+ "C04": dict(level="translation_validation", design="6/C04",
+   text="scipy's solver is not modelled; every output is certified: exact rational Hungarian potentials from the harness are checked by the Lean-executable assignCertOk (sound by LP weak duality, C04_cert_sound), raises are certified by a Hall violator (hallCertOk_sound); each call runs under a deadline.",
+   note="Trusted: Lean kernel/axioms as above, the certificate checkers' soundness theorems, the harness's Hungarian only as a certificate producer.",
+   technique="Lean-proved certificate checkers (LP duality, Hall) applied to every output"),
+ "C05": dict(level="proof", design="6/C05",
+   text="Lean theorems about an exact event-driven model mirroring the Python loop (termination within 2n events, bistochastic, the event-sum characterisation of the eating process, sd-envy-freeness for equal speeds); correspondence: float matrix within 1e-7 of the exact model on every case.",
+   note="numpy float rounding and the two 1e-9 clamps are outside the model and covered by the property's 1e-7 tolerance.",
+   technique="Lean 4 proof (refinement of an abstract eating step) + differential correspondence"),
+ "C06": dict(level="proof", design="6/C06",
+   text="Lean theorems: replay of any support permutations keeps the matrix balanced, strictly increases zero entries, <= n^2 steps, exact reconstruction, coefficients sum to the row sum; every choice function terminates (Hall). Correspondence: the implementation's own permutations are replayed exactly (equality on dyadic inputs, property tolerances otherwise).",
+   note="Float residue on non-dyadic inputs is judged by the property's 1e-6 tolerances; the matching oracle is C09's.",
+   technique="Lean 4 proof (Hall + balanced-step invariant) + exact replay correspondence"),
+ "C07": dict(level="proof", design="6/C07",
+   text="Lean theorems: rsd is injective, acceptable, exactly the serial-dictatorship outcome for every picking order; lottery permutations lie in the support. Correspondence: recorded numpy shuffle order replayed through the model; lottery draw intercepted and checked against the exact eating matrix. One known finding (eating over NaN) is recorded, not repaired.",
+   note="Random draws are observed by seeding and wrapping numpy.random.shuffle/choice.",
+   technique="Lean 4 proof for every order/draw + replay of recorded random choices"),
+ "C08": dict(level="proof", design="6/C08",
+   text="Lean theorems: the executable max-flow model is total (C08_ff_total) and returns a maximum flow and the least minimum cut; flowCutOk is a sound certificate checker. Correspondence: value and cut set equal the model's, the flow dict passes flowCutOk, independent Edmonds-Karp oracle, deadline-supervised calls.",
+   note="The code's dfs_path is not mirrored: the model uses its own search; the tie is through the canonical observables (value, least min cut) and the certificate.",
+   technique="Lean 4 proof (max-flow/min-cut duality, totality) + certificate check of every output"),
+ "C09": dict(level="proof", design="6/C09",
+   text="Lean theorems: mcm returns a maximum matching (C09_mcm_correct), koenigCertOk is sound. Correspondence: matching size equals the model's; the implementation's matching with a Koenig cover passes the Lean checker; independent augmenting-path oracle.",
+   note="As C08.", technique="Lean 4 proof via C08 + Koenig certificate check of every output"),
+ "C10": dict(level="proof", design="6/C10",
+   text="Lean theorems: winners characterisation, ranking validity, score formulas and cross-rule laws. Correspondence: scores/winners/rankings of every rule equal the model's (exact for integer rules, 1e-12 for Harmonic/utilitarian) plus textbook oracles in exact arithmetic.",
+   note="Float Harmonic/utilitarian scores compared at relative 1e-12.", technique="Lean 4 proof + differential correspondence"),
+ "C11": dict(level="proof", design="6/C11",
+   text="Lean theorems: scores/winners invariant under voter permutation, equivariant under renaming, equal rank multisets tie, histogram factorisation, STV anonymity/neutrality without elimination ties. Correspondence: metamorphic runs of the real code on (profile, permutation, renaming) triples, both sides equal to the model.",
+   note="For float Harmonic the factorisation through the rank multiset is checked as a functional table over the run.",
+   technique="Lean 4 proof of equivariance + metamorphic correspondence"),
+ "C12": dict(level="proof", design="6/C12",
+   text="Lean theorems: Copeland = pairwise-majority definition, Condorcet winner unique; STV loop = textbook elimination on the original ballots for every legal choice, majority favourite wins. Correspondence: scores, 'first' winner, and the recorded random eliminations replayed through the model.",
+   note="numpy.random.choice is wrapped to record eliminations.", technique="Lean 4 proof + replay of recorded random choices"),
+ "C13": dict(level="proof", design="6/C13",
+   text="Lean theorems: breakTie accept/first/random, index shift of scf/swf, randomized-scoring probabilities. Correspondence: rules x tie-breakers x index conventions with the same seed; probability vectors intercepted; all matching/allocation/elicitation rules run in both conventions.",
+   note="Index-shift theorems are proved for the voting models; for the other rules the shift is checked on the real code only (stated in DESIGN.md).",
+   technique="Lean 4 proof + differential / metamorphic correspondence"),
 }
 
 PENDING_REASON = "check not built yet in this snapshot of /verif (work in progress; see DESIGN.md section 9)"
